@@ -148,3 +148,166 @@ Definition enc_engine (c : val) : val :=
       end
   | _ => bad_case
   end.
+
+(* ---------- C26: round trip ---------- *)
+From MV Require Import Codec.CodecRT Codec.CodecEnc Codec.CodecNorm.
+
+Definition nz (n : N) : bool := negb (n =? 0).
+
+Definition props_of_val (v : val) : option props :=
+  match v with
+  | VL [VN a1; VN a2; VN a3; VB a4; VB a5; VB a6; VL ids; VN a8; VN a9; VB a10; VN a11; VN a12;
+        VB a13; VB a14; VN a15; VN a16; VN a17; VN a18; VB a19; VB a20; VB a21; VN a22; VN a23;
+        VN a24; VN a25; VN a26; VN a27; VN a28; VN a29; VL user; VN a31; VN a32; VN a33; VN a34;
+        VN a35; VN a36; VN a37] =>
+      match map_opt as_N ids,
+            map_opt (fun u => match u with VL [VB k; VB x] => Some (k, x) | _ => None end) user with
+      | Some ids', Some user' =>
+          Some (mkprops a1 (nz a2) a3 a4 a5 a6 ids' a8 (nz a9) a10 a11 (nz a12) a13 a14 a15 (nz a16)
+                        a17 a18 a19 a20 a21 a22 a23 a24 (nz a25) a26 (nz a27) a28 (nz a29) user' a31
+                        a32 (nz a33) a34 (nz a35) a36 (nz a37))
+      | _, _ => None
+      end
+  | _ => None
+  end.
+
+Definition sub_of_val (v : val) : option subscription :=
+  match v with
+  | VL [VB f; VN q; VN nl; VN rap; VN rh; VN ident] => Some (mksub f ident rh q (nz rap) (nz nl))
+  | _ => None
+  end.
+
+Definition connect_of_val (v : val) : option connectparams :=
+  match v with
+  | VL [VB name; VN clean; VN ka; VB cid; VN wf; VN wq; VN wr; VB wt; VB wp; VN uf; VB user; VN pf;
+        VB pass; wprops] =>
+      match props_of_val wprops with
+      | Some wps => Some (mkconn wps pass user name wp cid wt ka (nz pf) (nz uf) wq (nz wf) (nz wr) (nz clean))
+      | None => None
+      end
+  | _ => None
+  end.
+
+(* the inverse of val_of_packet, with the encoder's Mods given separately *)
+Definition packet_of_val (m : mods) (v : val) : option packet :=
+  match v with
+  | VL [VN ver; VL [VN ty; VN qos; VN dup; VN retain; VN rem]; VN id; VB topic; VB payload; VN rc;
+        VB rcs; VN sp; VN rb; VL filters; pr; conn] =>
+      match map_opt sub_of_val filters, props_of_val pr, connect_of_val conn with
+      | Some fs, Some p, Some c =>
+          Some (mkpk c p payload rcs fs topic (mkfh rem ty qos (nz dup) (nz retain)) m id ver (nz sp) rc rb)
+      | _, _, _ => None
+      end
+  | _ => None
+  end.
+
+Definition mods_of_val (v : val) : option mods :=
+  match v with
+  | VL [VN ms; VN dis; VN allow] => Some (mkmods ms (nz dis) (nz allow))
+  | _ => None
+  end.
+
+(* the remaining-length field of an encoded packet equals the number of bytes after it *)
+Definition length_field_ok (bs : bytes) : bool :=
+  match bs with
+  | _ :: r => match get_vbi r with Some (n, body) => n =? len body | None => false end
+  | [] => false
+  end.
+
+(* the projection without the remaining length (it depends on the form of the encoding) and without
+   the reserved CONNECT flag bit (ReservedBit, "reserved, do not use": the encoder always writes 0) *)
+Definition val_no_rem (pk : packet) : val :=
+  val_of_packet (set_pk_reserved_bit 0 (set_pk_fh (set_fh_remaining 0 (pk_fh pk)) pk)).
+
+Definition is_ping (pk : packet) : bool := (fh_type (pk_fh pk) =? 12) || (fh_type (pk_fh pk) =? 13).
+
+(* a decoded packet the encoder refuses: packet identifier 0 where one is required *)
+Definition KF_C26_pid0 (pk : packet) : bool :=
+  (pk_packet_id pk =? 0)
+  && (((fh_type (pk_fh pk) =? 3) && (0 <? fh_qos (pk_fh pk)))
+      || (fh_type (pk_fh pk) =? 8) || (fh_type (pk_fh pk) =? 10)).
+
+(* case = VL [VN 2; mods; packet; VN enc_outcome; VB enc; VN dec_outcome; dec_projection; VB unread]
+          a generated Packet value through the real encoder, its output through the real decoder
+        | VL [VN 3; VN version; VB stream; VN d1; proj1; mods; VN enc_outcome; VB enc; VN d2; proj2; VB unread2]
+          an accepted byte string: decoded, re-encoded, decoded again *)
+Definition rt_check (tg : bytes) (pk : packet) (enc_outcome : N) (enc : bytes)
+           (dec_outcome : N) (dec_proj : val) (unread : bytes) : val :=
+  let m := mochi_encode pk in
+  let v := pk_version pk in
+  let wf := wf_packet pk in
+  let tgw := if wf then tg ++ tag "-wf" else tg ++ tag "-other" in
+  (* correspondence of the encoder *)
+  if negb (class_of m =? enc_outcome) then verdict 2 (tgw ++ tag "-enc") wf [VN (class_of m)]
+  else match m with
+  | Ok mb =>
+      if negb (beq_bytes mb enc) then verdict 2 (tgw ++ tag "-bytes") wf [VB mb]
+      else if negb (is_ping pk) && negb (length_field_ok enc) then verdict 1 (tgw ++ tag "-length") wf []
+      else
+        let md := map_res (fun x => VL [val_of_packet (fst x); VB (snd x)]) (mochi_decode_packet v enc) in
+        let obs := VL [dec_proj; VB unread] in
+        if wf then
+          (* specification: decodes to the normal form of the packet *)
+          let want := VL [val_of_packet (norm pk (rem_of enc)); VB []] in
+          if (dec_outcome =? 0) && beq_val obs want then
+            match md with
+            | Ok mv => if beq_val mv obs then verdict 0 tgw true [] else verdict 2 (tgw ++ tag "-dec") true [mv]
+            | _ => verdict 2 (tgw ++ tag "-dec") true [VN (class_of md)]
+            end
+          else verdict 1 tgw true [want]
+        else total_verdict tgw false dec_outcome obs md
+  | _ =>
+      (* the encoder returned an error: allowed for a packet that is not well-formed; for a
+         well-formed one only for the missing packet identifier *)
+      if wf && negb (KF_C26_pid0 pk) then verdict 1 (tgw ++ tag "-refused") true []
+      else verdict 0 (tgw ++ tag "-refused") false []
+  end.
+
+(* ENGINE codec_rt Codec.CodecEngine.rt_engine *)
+Definition rt_engine (c : val) : val :=
+  match c with
+  | VL [VN 2; mv; pv; VN eo; VB enc; VN d; dproj; VB unread] =>
+      match mods_of_val mv with
+      | Some m => match packet_of_val m pv with
+                  | Some pk => rt_check (type_tag (fh_type (pk_fh pk))) pk eo enc d dproj unread
+                  | None => bad_case
+                  end
+      | None => bad_case
+      end
+  | VL [VN 3; VN v; VB stream; VN d1; proj1; mv; VN eo; VB enc; VN d2; proj2; VB unread2] =>
+      if negb (wf_bytesb stream) then bad_case else
+      (* first decoding: correspondence with the model *)
+      let md1 := map_res (fun x => val_of_packet (fst x)) (mochi_decode_packet v stream) in
+      if negb (class_of md1 =? d1) then verdict 2 (tag "re-dec1") false [VN (class_of md1)]
+      else match md1 with
+      | Ok mv1 =>
+          if negb (beq_val mv1 proj1) then verdict 2 (tag "re-dec1") false [mv1]
+          else match mods_of_val mv with
+          | Some m => match packet_of_val m proj1 with
+            | Some pk =>
+                let tg := tag "re-" ++ type_tag (fh_type (pk_fh pk)) in
+                if (eo =? 1) && KF_C26_pid0 pk && wf_packet pk
+                then verdict 3 tg true [VB (tag "KF_C26_pid0")]
+                else
+                  let r := rt_check tg pk eo enc d2 proj2 unread2 in
+                  match r with
+                  | VL (VN 0 :: _) =>
+                      (* a packet outside wf_packet that the encoder accepted: the second decoding must
+                         give the first one back (apart from the remaining length) *)
+                      if negb (wf_packet pk) && (eo =? 0) then
+                        match packet_of_val m proj2 with
+                        | Some pk2 => if beq_val (val_no_rem pk2) (val_no_rem pk) then r
+                                      else verdict 1 (tg ++ tag "-changed") true []
+                        | None => r
+                        end
+                      else r
+                  | _ => r
+                  end
+            | None => bad_case
+            end
+          | None => bad_case
+          end
+      | _ => verdict 0 (tag "re-rejected") false []
+      end
+  | _ => bad_case
+  end.
